@@ -611,7 +611,12 @@ namespace verif
                     else if (mode == 1)
                     {
                         int v = int(c.pick(50));
-                        R.ints.push_back(Async::Promise<int>::resolved(v));
+                        // two doors to an already-fulfilled promise: the static resolved(), or (odd values) the
+                        // two-argument constructor whose function settles through the Resolver on the spot
+                        if (v % 2)
+                            R.ints.emplace_back([v](Async::Resolver& resolve, Async::Rejection&) { resolve(int(v)); });
+                        else
+                            R.ints.push_back(Async::Promise<int>::resolved(v));
                         R.int_def.push_back(nullptr);
                         W.settle(m, Ful, v, 0);
                         opdesc = "m" + std::to_string(m) + "=resolved(" + std::to_string(v) + ")";
@@ -619,7 +624,10 @@ namespace verif
                     else
                     {
                         int e = next_exc++;
-                        R.ints.push_back(Async::Promise<int>::rejected(TestExc { e }));
+                        if (e % 2)
+                            R.ints.emplace_back([e](Async::Resolver&, Async::Rejection& reject) { reject(TestExc { e }); });
+                        else
+                            R.ints.push_back(Async::Promise<int>::rejected(TestExc { e }));
                         R.int_def.push_back(nullptr);
                         W.settle(m, Rej, 0, e);
                         opdesc = "m" + std::to_string(m) + "=rejected(e" + std::to_string(e) + ")";
